@@ -61,7 +61,19 @@ func (p Polygon) op(p2 Polygonal, op polyclip.Op) Polygon {
 	for _, pp2x := range p2.Polygons() {
 		pp2 = append(pp2, pp2x.toPolyClip()...)
 	}
-	return polyClipToPolygon(pp.Construct(op, pp2))
+	return polyClipToPolygon(pp.Construct(xorOp(op, pp, pp2), pp2))
+}
+
+// xorOp replaces XOR by UNION for operands that the clipper answers without
+// sweeping (one of them empty, or bounding boxes that do not overlap): it
+// returns an empty polygon for XOR in those cases, but the symmetric
+// difference of such operands is their union.
+func xorOp(op polyclip.Op, subject, clipping polyclip.Polygon) polyclip.Op {
+	if op == polyclip.XOR && (len(subject) == 0 || len(clipping) == 0 ||
+		!subject.BoundingBox().Overlaps(clipping.BoundingBox())) {
+		return polyclip.UNION
+	}
+	return op
 }
 
 func (p Polygon) toPolyClip() polyclip.Polygon {
